@@ -29,6 +29,7 @@ type glueCand struct {
 	Off  int
 	G    string // ghost name
 	Name string
+	Down bool // descending counter: phi == entry(phi) - ghost + Off, entry(phi) = the phi's value when the path reached the loop
 }
 
 func (vc *FuncVC) loopInfoFor(fn *ssa.Function) *loopInfo {
@@ -123,7 +124,7 @@ func (vc *FuncVC) enterLoopHeader(st *State, fr *Frame, from, to *ssa.BasicBlock
 			}
 		}
 		for _, gc := range cut.glue {
-			vc.addOblig(st, "glue-preserved", lname+"/glue-preserved:"+gc.Name, nil, vc.glueTerm(st, fr, gc))
+			vc.addOblig(st, "glue-preserved", lname+"/glue-preserved:"+gc.Name, nil, vc.glueTerm(st, fr, gc, cut.entryPhi))
 		}
 		if spec != nil {
 			for i, c := range spec.Decr {
@@ -173,6 +174,12 @@ func (vc *FuncVC) enterLoopHeader(st *State, fr *Frame, from, to *ssa.BasicBlock
 			break
 		}
 	}
+	entryPhi := map[*ssa.Phi]string{}
+	for _, phi := range phis {
+		if v, ok := fr.env[phi].(V); ok {
+			entryPhi[phi] = v.T
+		}
+	}
 	wr := vc.loopWrites(st, fr, lp)
 	if isTop {
 		if !vc.glueInit[key] {
@@ -180,7 +187,7 @@ func (vc *FuncVC) enterLoopHeader(st *State, fr *Frame, from, to *ssa.BasicBlock
 			vc.glue[key] = vc.glueCandidates(st, fr, phis, wr)
 		}
 		for _, gc := range vc.glue[key] {
-			vc.addOblig(st, "glue-entry", lname+"/glue-entry:"+gc.Name, nil, vc.glueTerm(st, fr, gc))
+			vc.addOblig(st, "glue-entry", lname+"/glue-entry:"+gc.Name, nil, vc.glueTerm(st, fr, gc, entryPhi))
 		}
 	}
 	// havoc
@@ -200,7 +207,7 @@ func (vc *FuncVC) enterLoopHeader(st *State, fr *Frame, from, to *ssa.BasicBlock
 		fr.env[phi] = nv
 	}
 	vc.applyLoopHavoc(st, fr, lp, wr)
-	newCut := &loopCut{heldAt: map[string]string{}}
+	newCut := &loopCut{heldAt: map[string]string{}, entryPhi: entryPhi}
 	for k, v := range st.heap {
 		if strings.HasPrefix(k, "held@") {
 			newCut.heldAt[k] = v
@@ -232,7 +239,7 @@ func (vc *FuncVC) enterLoopHeader(st *State, fr *Frame, from, to *ssa.BasicBlock
 	if isTop {
 		newCut.glue = vc.glue[key]
 		for _, gc := range newCut.glue {
-			st.assume(vc.glueTerm(st, fr, gc))
+			st.assume(vc.glueTerm(st, fr, gc, entryPhi))
 		}
 	}
 	fr.cuts[to] = newCut
@@ -261,7 +268,7 @@ func (vc *FuncVC) safeInt(sc *Scope, e Expr, what string) (res string, ok bool) 
 
 // ------------------------------------------------------------------ glue
 
-func (vc *FuncVC) glueTerm(st *State, fr *Frame, gc glueCand) string {
+func (vc *FuncVC) glueTerm(st *State, fr *Frame, gc glueCand, entry map[*ssa.Phi]string) string {
 	pv, ok := fr.env[gc.Phi].(V)
 	if !ok {
 		if c, isC := fr.env[gc.Phi].(*Closure); isC {
@@ -282,6 +289,13 @@ func (vc *FuncVC) glueTerm(st *State, fr *Frame, gc glueCand) string {
 	g, ok := st.ghost[gc.G]
 	if !ok {
 		return "true"
+	}
+	if gc.Down {
+		e, ok := entry[gc.Phi]
+		if !ok {
+			return "true"
+		}
+		return eq(t, app("-", e, g.T))
 	}
 	return eq(t, g.T)
 }
@@ -314,6 +328,10 @@ func (vc *FuncVC) glueCandidates(st *State, fr *Frame, phis []*ssa.Phi, wr *loop
 					if _, isInt := phi.Type().Underlying().(*types.Basic); isInt {
 						for _, off := range []int{0, 1, -1} {
 							out = append(out, glueCand{Phi: phi, Off: off, G: g, Name: fmt.Sprintf("%s%+d==%s", phiKey(phi), off, g)})
+						}
+						// descending counters: phi == entry(phi) - ghost (+/-1)
+						for _, off := range []int{0, 1, -1} {
+							out = append(out, glueCand{Phi: phi, Off: off, G: g, Down: true, Name: fmt.Sprintf("%s%+d==entry-%s", phiKey(phi), off, g)})
 						}
 						continue
 					}
